@@ -30,9 +30,9 @@ Proof.
     inversion H2; subst. apply Forall_app. split; [assumption|]. repeat constructor. exact Hb.
 Qed.
 
-Lemma cspec_feed_ge n gop_num max sp cls b w wo :
+Lemma cspec_feed_ge n gop_num max sp cls b w wo p :
   label_ge n b -> label_ge n w -> label_ge n wo ->
-  cspec_ge n sp -> cspec_ge n (cspec_feed gop_num max sp cls b w wo).
+  cspec_ge n sp -> cspec_ge n (cspec_feed gop_num max sp cls b w wo p).
 Proof.
   intros Hb Hw Hwo (H1 & H2 & H3 & H4 & H5). unfold cspec_ge, cspec_feed. cbn [sp_meta_w sp_meta_wo sp_vsh sp_ash sp_gops].
   repeat split.
@@ -40,7 +40,8 @@ Proof.
   - destruct cls; try assumption. repeat constructor; assumption.
   - destruct cls; try assumption. repeat constructor; assumption.
   - destruct cls; try assumption. repeat constructor; assumption.
-  - destruct (Nat.ltb 0 gop_num); [now apply gops_feed_ge|assumption].
+  - destruct cls; try (destruct (Nat.ltb 0 gop_num); [now apply gops_feed_ge|assumption]);
+      destruct (hdr_changed _ _); try assumption; constructor.
 Qed.
 
 Lemma lcw_index m i : label_index (lcw m i) = i.
